@@ -59,9 +59,18 @@ type broker struct {
 }
 
 func startBroker(mod func(c *config.Config)) (*broker, *failure) {
+	return startBrokerWith(mod, nil)
+}
+
+// startBrokerWith: `wrap` may replace the listener the broker is given (probe stop-vs-late-connect)
+func startBrokerWith(mod func(c *config.Config), wrap func(net.Listener) net.Listener) (*broker, *failure) {
 	ln, err := net.Listen("tcp", "127.0.0.1:0")
 	if err != nil {
 		return nil, failf("panic", "listen: %v", err)
+	}
+	addr := ln.Addr().String()
+	if wrap != nil {
+		ln = wrap(ln)
 	}
 	cfg := config.DefaultConfig()
 	cfg.API = config.API{}
@@ -71,7 +80,7 @@ func startBroker(mod func(c *config.Config)) (*broker, *failure) {
 	}
 	plg := &stressPlugin{}
 	srv := server.New(server.WithTCPListener(ln), server.WithConfig(cfg), server.WithPlugin(plg))
-	b := &broker{ln: ln, addr: ln.Addr().String(), srv: srv, plg: plg, runErr: make(chan error, 1)}
+	b := &broker{ln: ln, addr: addr, srv: srv, plg: plg, runErr: make(chan error, 1)}
 	go func() { b.runErr <- srv.Run() }()
 	// wait until the broker answers a CONNECT (Init done, accept loop running)
 	deadline := time.Now().Add(10 * time.Second)
